@@ -145,7 +145,7 @@ Section Inv.
     - apply in_flat_map in Hin as ([b1 f1] & H1 & H2). simpl in H2. destruct f1.
       + eapply pres_trans; eauto.
       + destruct H2 as [[= <- <-]|[]]. eauto.
-    - apply in_app_or in Hin as [Hin|Hin]; [|eauto].
+    - apply in_app_or in Hin as [Hin|Hin]; [|apply filter_In in Hin as [Hin _]; eauto].
       apply in_flat_map in Hin as ([b1 f1] & H1 & H2). simpl in H2. destruct f1.
       + eapply pres_trans; eauto.
       + destruct H2 as [[= <- <-]|[]]. eauto.
@@ -192,7 +192,7 @@ Section Inv.
     - apply in_flat_map in Hin as ([b1 f1] & H1 & H2). simpl in H2. destruct f1.
       + eauto.
       + destruct H2 as [[= <- <-]|[]]. eauto.
-    - apply in_app_or in Hin as [Hin|Hin]; [|eauto].
+    - apply in_app_or in Hin as [Hin|Hin]; [|apply filter_In in Hin as [Hin _]; eauto].
       apply in_flat_map in Hin as ([b1 f1] & H1 & H2). simpl in H2. destruct f1.
       + eauto.
       + destruct H2 as [[= <- <-]|[]]. eauto.
@@ -223,7 +223,7 @@ Section Inv.
       + apply in_flat_map in Hin as ([b1 f1] & H1 & H2). simpl in H2. destruct f1.
         * eapply dom_in_trans; eauto; intros; apply in_or_app; auto.
         * destruct H2 as [[= <- <-]|[]]. eapply dom_in_weaken; eauto. intros; apply in_or_app; auto.
-      + eapply dom_in_weaken; eauto. intros; apply in_or_app; auto.
+      + apply filter_In in Hin as [Hin _]. eapply dom_in_weaken; eauto. intros; apply in_or_app; auto.
     - apply in_map_iff in Hin as ([b1 f1] & [= <- <-] & H1). eauto.
     - apply exists_scan_in in Hin as [Hin _]. eapply dom_in_weaken; eauto. intros; apply in_or_app; auto.
     - fold (forall_bvs b y) in Hin. destruct (forall_bvs b y) as [|bv0 bvs] eqn:Ebv.
